@@ -14,7 +14,14 @@ not compile -> every property whose cone contains the bridge reports the obligat
 Modelling assumptions the translator makes are printed into the generated file (section `assumptions`)."""
 import ast
 
-from gen_kernels import KernelError, find_class, find_func
+import pynorm
+from gen_kernels import KernelError, find_class
+from gen_kernels import find_func as find_func_raw
+
+
+def find_func(node, name):
+    """the method, normalised (harness/pynorm.py: python-level identities that reduce the number of source shapes)"""
+    return pynorm.normalize(find_func_raw(node, name))
 
 
 def cq(s):
@@ -396,6 +403,39 @@ class NodeTr:
         if isinstance(tyv, tuple) and tyv[0] == "list" and tyi == "nat":
             return (self.bind(binds, "lift (nth_error %s %s)" % (tv, ti), True), tyv[1])
         self.err("subscript %s (%s[%s])" % (ast.unparse(e), tyv, tyi), e)
+
+    def join_ty(self, a, b, node):
+        """the type of a value that is an <a> on one path and a <b> on the other"""
+        if a == b:
+            return a
+        for p, q in ((a, b), (b, a)):
+            if p == "nil" and (q == "md" or isinstance(q, tuple) and q[0] in ("list", "dict")):
+                return q
+        self.err("a %s on one path and a %s on the other" % (a, b), node)
+
+    def mterm(self, binds, term):
+        """a list of steps and a result as one monadic term"""
+        return "(" + " ".join("do %s <- %s ;;" % ("_" if b.var.startswith("u") else b.var, b.term) for b in binds) \
+            + (" " if binds else "") + "ret %s)" % term
+
+    def ex_IfExp(self, e, env, binds):
+        """a if c else b: the test first, then ONLY the chosen arm (an arm with a step becomes an `if` at the monad level)"""
+        c = self.cond(e.test, env, binds)
+        if c in ("true", "false"):
+            return self.ex(e.body if c == "true" else e.orelse, self.narrow(e.test, env, c == "true"), binds)
+        b1, b2 = [], []
+        t1, ty1 = self.ex(e.body, self.narrow(e.test, env, True), b1)
+        t2, ty2 = self.ex(e.orelse, self.narrow(e.test, env, False), b2)
+        ty = self.join_ty(ty1, ty2, e)
+        if isinstance(ty, tuple) and ty[0] in ("alias", "iter"):
+            self.err("conditional expression over a %s" % (ty,), e)
+        if not b1 and not b2:
+            if t1 == t2:
+                return (t1, ty)
+            return ("(if %s then %s else %s)" % (c, t1, t2), ty)
+        v = self.bind(binds, "(if %s then %s else %s)" % (c, self.mterm(b1, t1), self.mterm(b2, t2)),
+                      any(b.effect for b in b1 + b2))
+        return (v, ty)
 
     def ex_ListComp(self, e, env, binds):
         gens = e.generators
@@ -903,14 +943,16 @@ class NodeTr:
                     out += self.assign_to(t1, term, ty, env, ind, s)
                 return out + self.go(rest, env, ind)
             term, ty = self.ex(s.value, env, binds)
-            if len(tgt.elts) == 2 and all(isinstance(t1, ast.Name) for t1 in tgt.elts) and ty == "val":
+            if len(tgt.elts) == 2 and ty == "val":
+                # a, b = v: v is unpacked (or raises) BEFORE any target is assigned; then the targets left to right
                 p = self.bind(binds, "lift (unpack2 %s)" % term, True, "p")
                 out += self.emit_binds(binds, ind)
-                a, b = tgt.elts[0].id, tgt.elts[1].id
-                ca, cb = self.local(a), self.local(b)
-                out.append("%slet '(%s, %s) := %s in" % (ind, ca, cb, p))
-                env[a] = (ca, "val")
-                env[b] = (cb, "val")
+                names = [self.local(t1.id) if isinstance(t1, ast.Name) else self.fresh("t") for t1 in tgt.elts]
+                if names[0] == names[1]:
+                    names[0] = self.fresh("t")
+                out.append("%slet '(%s, %s) := %s in" % (ind, names[0], names[1], p))
+                for t1, c1 in zip(tgt.elts, names):
+                    out += self.assign_to(t1, c1, "val", env, ind, s)
                 return out + self.go(rest, env, ind)
             if len(tgt.elts) == 2 and isinstance(ty, tuple) and ty[0] == "pair":
                 out += self.emit_binds(binds, ind)
